@@ -497,6 +497,9 @@ def _flag_attr(t):
         return _flag_attr(t[1])
     if t[0] == "truth":
         return _flag_attr(t[1])
+    if t[0] == "isnone":
+        # `attr is None` / `attr is not None`: the same flag, seen as set / unset
+        return _flag_attr(t[1])
     if t[0] == "attr" and t[1][0] == "obj" and t[1][1] == "WebSocketServer":
         return t[2]
     if t[0] == "obj" and isinstance(t[2], tuple) and t[2] and t[2][0] == "held":
@@ -509,6 +512,8 @@ def _truthy(t, b):
         return _truthy(t[1], not b)
     if t[0] == "truth":
         return _truthy(t[1], b)
+    if t[0] == "isnone":
+        return _truthy(t[1], not b)     # `x is None` true  <=>  x is unset
     return b
 
 
